@@ -9,6 +9,7 @@ package broker
 // required permission, and its target covers the channel.
 
 import (
+	"github.com/emitter-io/emitter/internal/message"
 	"github.com/emitter-io/emitter/internal/provider/contract"
 	"github.com/emitter-io/emitter/internal/security"
 	vs "github.com/emitter-io/emitter/internal/verifspec"
@@ -64,4 +65,32 @@ func post_Authorize_complete(s *Service, channel *security.Channel, permission u
 	}
 	key := vs.TraceRetBytes(d, 0)
 	return v < 0 || !vs.TraceRetBool(v, 0) || key[15]&permission != permission || t < 0 || !vs.TraceRetBool(t, 0)
+}
+
+// ---------------------------------------------------------------------------------------------------------
+// Connection teardown (property C08)
+
+// Every way a connection ends - EOF at any byte, a decode error, a handler error, a panic while serving it - leaves
+// Process through its deferred Close: decided on the control-flow graph (first instruction defers Close on the
+// receiver, every return runs the deferred calls, nothing else defers Close).
+//@ structural (*Conn).Process defer-first=(*broker.Conn).Close props=C08
+
+//@ assume (*github.com/emitter-io/emitter/internal/message.Counters).All iface
+//@ assume (*github.com/emitter-io/emitter/internal/service/pubsub.Service).Unsubscribe iface
+//@ assume (*github.com/emitter-io/emitter/internal/service/pubsub.Service).OnLastWill iface
+//@ assume (*Service).ID iface
+
+// Close: one Unsubscribe for every subscription the bookkeeping reports (explored for up to two), the last will
+// exactly once and after them, then the socket is closed - whatever Unsubscribe and OnLastWill return.
+//@ verify (*Conn).Close pre=pre_Conn_Close post=post_Conn_Close props=C08
+//@ loop (*Conn).Close 0 unroll 2 bounded
+func pre_Conn_Close(c *Conn) bool {
+	return c != nil && c.service != nil && c.service.pubsub != nil && c.subs != nil && c.socket != nil
+}
+func post_Conn_Close(c *Conn) bool {
+	all, will, cl := vs.TraceFind("Counters).All"), vs.TraceFind("OnLastWill"), vs.TraceFind(".Close")
+	held := vs.TraceRet[[]message.Counter](all, 0)
+	return all >= 0 && vs.TraceCount("Counters).All") == 1 && vs.TraceCount("Service).Unsubscribe") == len(held) &&
+		vs.TraceCount("OnLastWill") == 1 && vs.TraceCount(".Close") == 1 && all < will && will < cl &&
+		(len(held) == 0 || vs.TraceFindNth("Service).Unsubscribe", len(held)-1) < will)
 }
